@@ -1,4 +1,5 @@
 import Hgxv.Proofs.C15Loop
+import Hgxv.Proofs.C15Stop
 import Hgxv.Proofs.C15Closed
 /-! # C15 — `penLik` is the exact Poisson log-likelihood of the data under the returned `w / C`
 
@@ -145,25 +146,42 @@ theorem loop_symm (d : Data) (us w0 : List (List Rat)) (ru rw : Mat)
       exact wUpdate_symm d _ _ rw a b (ih a b) (hrsym a b)
     · rw [if_neg hab, if_neg (fun h => hab ⟨h.2, h.1⟩)]
 
-/-- what `fit` returns when the memberships are supplied and the affinity is inferred -/
+/-- what `fit` returns when the memberships are supplied and the affinity is inferred: the affinity with which
+the loop was left (either exit), divided by `C()` -/
 theorem fit_supplied_u (d : Data) (us : List (List Rat)) (Dsup : Option ℕ) (u0 w0 : List (List Rat))
-    (ru rw : Mat) (sqrtC : Rat) (n D : ℕ) (p : Params)
-    (h : fit d (some us) none Dsup u0 w0 ru rw sqrtC n = some (D, p)) :
+    (ru rw : Mat) (sqrtC : Rat) (stop : Option Stop) (n D : ℕ) (p : Params)
+    (h : fit d (some us) none Dsup u0 w0 ru rw sqrtC stop n = some (D, p)) :
     fitMaxSize d Dsup = some D ∧
-    p.w = toRows d.K d.K fun a b => matOf (wAfter d us w0 ru rw n) a b / C (dims 2 D) := by
+    p.w = toRows d.K d.K fun a b =>
+      matOf (emRun d true false ru rw stop n { u := us, w := w0 }).p.w a b / C (dims 2 D) := by
   unfold fit at h
   split at h
   · simp at h
   · rename_i D' hD'
-    simp only [Option.some.injEq, Prod.mk.injEq] at h
-    obtain ⟨rfl, hp⟩ := h
-    refine ⟨hD', ?_⟩
-    rw [← hp]
-    simp [finish, wAfter]
+    split at h
+    · simp only [Option.some.injEq, Prod.mk.injEq] at h
+      obtain ⟨rfl, hp⟩ := h
+      refine ⟨hD', ?_⟩
+      rw [← hp]
+      simp [finish, fitRun]
+    · simp at h
+
+theorem loop_ascent_step (d : Data) (us w0 : List (List Rat)) (ru rw : Mat)
+    (hu : ∀ i a, 0 ≤ matOf us i a) (hw0 : ∀ a b, 0 ≤ matOf w0 a b) (hA : ∀ e < d.E, 0 < d.A e)
+    (hr : ∀ a b, 0 ≤ rw a b)
+    (hlam : ∀ e < d.E, 0 < poisson d.N d.K (matOf us) (matOf w0) (d.edge e))
+    (hden : ∀ a < d.K, ∀ b < d.K, 0 < wDen d.N (matOf us) a b + rw a b) (m m' : ℕ) (h : m' = m ∨ m' = m + 1) :
+    penLik d (matOf us) rw (matOf (wAfter d us w0 ru rw m))
+      ≤ penLik d (matOf us) rw (matOf (wAfter d us w0 ru rw m')) := by
+  rcases h with rfl | rfl
+  · exact le_refl _
+  · exact loop_ascent d us w0 ru rw hu hw0 hA hr hlam hden m
 
 /-- **the property's statement for `fit`**: memberships supplied ⇒ the exact (penalised) Poisson
-log-likelihood of the data under the returned affinity does not decrease from `n_iter = n` to `n + 1` -/
+log-likelihood of the data under the returned affinity does not decrease from `n_iter = n` to `n + 1`,
+with or without the stopping rule -/
 theorem fit_ascent (d : Data) (us u0 w0 : List (List Rat)) (Dsup : Option ℕ) (ru rw : Mat) (sqrtC : Rat)
+    (stop : Option Stop)
     (hu : ∀ i a, 0 ≤ matOf us i a) (hw0 : ∀ a b, 0 ≤ matOf w0 a b) (hA : ∀ e < d.E, 0 < d.A e)
     (hr : ∀ a b, 0 ≤ rw a b)
     (hlam : ∀ e < d.E, 0 < poisson d.N d.K (matOf us) (matOf w0) (d.edge e))
@@ -171,12 +189,12 @@ theorem fit_ascent (d : Data) (us u0 w0 : List (List Rat)) (Dsup : Option ℕ) (
     (hsym0 : ∀ a b, matOf w0 a b = matOf w0 b a) (hrsym : ∀ a b, rw a b = rw b a)
     (hsize : ∀ e < d.E, 2 ≤ (d.edge e).length ∧ (d.edge e).length ≤ d.N)
     (n D D' : ℕ) (p p' : Params)
-    (h1 : fit d (some us) none Dsup u0 w0 ru rw sqrtC n = some (D, p))
-    (h2 : fit d (some us) none Dsup u0 w0 ru rw sqrtC (n + 1) = some (D', p'))
+    (h1 : fit d (some us) none Dsup u0 w0 ru rw sqrtC stop n = some (D, p))
+    (h2 : fit d (some us) none Dsup u0 w0 ru rw sqrtC stop (n + 1) = some (D', p'))
     (hD2 : 2 ≤ D) (hDN : D ≤ d.N) :
     D' = D ∧ exactLik d D (matOf us) rw (matOf p.w) ≤ exactLik d D (matOf us) rw (matOf p'.w) := by
-  obtain ⟨hm1, hp1⟩ := fit_supplied_u d us Dsup u0 w0 ru rw sqrtC n D p h1
-  obtain ⟨hm2, hp2⟩ := fit_supplied_u d us Dsup u0 w0 ru rw sqrtC (n + 1) D' p' h2
+  obtain ⟨hm1, hp1⟩ := fit_supplied_u d us Dsup u0 w0 ru rw sqrtC stop n D p h1
+  obtain ⟨hm2, hp2⟩ := fit_supplied_u d us Dsup u0 w0 ru rw sqrtC stop (n + 1) D' p' h2
   have hDD : D' = D := by rw [hm1] at hm2; exact (Option.some.inj hm2).symm
   subst hDD
   refine ⟨rfl, ?_⟩
@@ -190,8 +208,18 @@ theorem fit_ascent (d : Data) (us u0 w0 : List (List Rat)) (Dsup : Option ℕ) (
       (fun a ha b hb => matOf_toRows_in _ _ _ a b ha hb)]
     exact exactLik_eq d D' (matOf us) rw _ (fun a _ b _ => loop_symm d us w0 ru rw hsym0 hrsym m a b) hD2 hDN hsize
       (loop_inv d us w0 ru rw hu hw0 hA hr hlam hden m).2
-  rw [hp1, hp2, step n, step (n + 1)]
-  have := loop_ascent d us w0 ru rw hu hw0 hA hr hlam hden n
+  -- the loop was left after `m` passes (n_iter = n) and after `m` or `m + 1` passes (n_iter = n + 1)
+  obtain ⟨m, _, hm⟩ := emRun_iter d true false ru rw stop n { u := us, w := w0 }
+  have hw1 : (emRun d true false ru rw stop n { u := us, w := w0 }).p.w = wAfter d us w0 ru rw m := by
+    rw [hm]; rfl
+  have hw2 : ∃ m', (m' = m ∨ m' = m + 1) ∧
+      (emRun d true false ru rw stop (n + 1) { u := us, w := w0 }).p.w = wAfter d us w0 ru rw m' := by
+    rcases emRun_succ d true false ru rw stop n { u := us, w := w0 } with h | h
+    · exact ⟨m, Or.inl rfl, by rw [h, hw1]⟩
+    · exact ⟨m + 1, Or.inr rfl, by rw [h, hm]; rfl⟩
+  obtain ⟨m', hmm, hw2⟩ := hw2
+  rw [hp1, hp2, hw1, hw2, step m, step m']
+  have := loop_ascent_step d us w0 ru rw hu hw0 hA hr hlam hden m m' hmm
   linarith
 
 end C15
